@@ -3,6 +3,7 @@ package main
 import (
 	"fmt"
 	"math/rand"
+	"strings"
 
 	"verif/core"
 	"verif/theory"
@@ -68,7 +69,7 @@ func inScale(k theory.Key, n theory.Note) (int, bool) {
 }
 
 func checkC03(c *core.Ctx) {
-	c.Rule("exhaustive: 28 keys x 21 root spellings x (no bass + 21 bass spellings) = 12,936 single chords through `text conv syllable --key K` (thorough: again with {key=K} on the chord, with a symbol, and with the key set by a preceding rest or chord; quick samples those); " +
+	c.Rule("exhaustive: 28 keys x 21 root spellings x (no bass + 21 bass spellings) = 12,936 single chords through `text conv syllable --key K` (thorough: again with {key=K} on the chord, with a symbol, with the key set by a preceding rest or chord, with unicode accidentals, and after two modulations between keys of the same letter; quick samples those); " +
 		"success => degree number = letter distance + 1 and size = pitch distance (same for the bass, measured from the root); scale notes must be accepted; " +
 		"non-trivial = accepted chord in a key other than C; distinct by (key, root, bass, variant)")
 	c.Assume("theory.Size, letter arithmetic of letterInterval", "theory.ParseNotation reads crd's degree notation", "yaml.v3 as reader")
@@ -77,20 +78,20 @@ func checkC03(c *core.Ctx) {
 	sp := theory.AllSpellings()
 	variants := 1
 	if !c.Quick() {
-		variants = 5
+		variants = 7
 	}
 	per := len(sp) * (len(sp) + 1)
 	total := len(keys) * per
 	c.Extra("swept_space", total*variants)
 	nCases := total * variants
 	if c.Quick() {
-		nCases = total + 1200 // the full --key sweep plus a seeded sample of the carried-key variants
+		nCases = total + 2400 // the full --key sweep plus a seeded sample of the carried-key variants
 	}
 	c.Stream("sweep", nCases, func(i int, rr *rand.Rand) {
 		variant := i / total
 		j := i % total
 		if c.Quick() && i >= total {
-			variant = 3 + rr.Intn(2)
+			variant = 3 + rr.Intn(4)
 			j = rr.Intn(total)
 		}
 		k := keys[j/per]
@@ -122,6 +123,25 @@ func checkC03(c *core.Ctx) {
 		}
 		if variant == 4 {
 			text = k.Tonic.String() + "[1]{key=" + k.String() + "} R[2] " + text
+			args = []string{"text", "conv", "syllable"}
+			lead = 2
+		}
+		// the accidentals written with the unicode signs the lexer equally accepts (5)
+		if variant == 5 {
+			text = strings.NewReplacer("#", "♯", "b", "♭").Replace(text)
+		}
+		// two modulations in a row: first to the key with the same letter and mode but another accidental (6)
+		if variant == 6 {
+			sib := ""
+			for _, o := range keys {
+				if o.Tonic.Letter == k.Tonic.Letter && o.Minor == k.Minor && o.Tonic.Acc != k.Tonic.Acc {
+					sib = o.String()
+				}
+			}
+			if sib == "" {
+				sib = keys[(j/per+9)%len(keys)].String()
+			}
+			text = "R[1]{key=" + sib + "} R[1]{key=" + k.String() + "} " + text
 			args = []string{"text", "conv", "syllable"}
 			lead = 2
 		}
